@@ -9,7 +9,7 @@ from ..paths import walk_shallow, facts_at
 from ..guards import Evaluator
 from ..codec import extract, feasible_branches, consistent_branch
 from ..tables import Tables
-from .common import check_header_copy_first, where, same_function, grid
+from .common import check_header_copy_first, where, same_function, grid, subst_locals
 from .c08 import _sig
 
 MOD = "bvll"
@@ -311,11 +311,12 @@ def r3(ctx):
     if pk is None or up is None:
         raise AnchorMissing("pdu.pack_ip_addr/unpack_ip_addr")
     import struct
-    ret = [r for r in walk_shallow(pk) if isinstance(r, ast.Return)][0].value
-    ok = isinstance(ret, ast.BinOp) and isinstance(ret.op, ast.Add) and norm(ret.left.func) == "socket.inet_aton" and norm(ret.right.func) == "struct.pack"
+    ret = subst_locals(pk, [r for r in walk_shallow(pk) if isinstance(r, ast.Return)][0].value)
+    ok = isinstance(ret, ast.BinOp) and isinstance(ret.op, ast.Add) and isinstance(ret.left, ast.Call) and isinstance(ret.right, ast.Call) \
+        and norm(ret.left.func) == "socket.inet_aton" and norm(ret.right.func) == "struct.pack"
     fmt_p = prog.try_const(pm, ret.right.args[0]) if ok else None
-    retu = [r for r in walk_shallow(up) if isinstance(r, ast.Return)][0].value
-    oku = isinstance(retu, ast.Tuple) and len(retu.elts) == 2 and norm(retu.elts[0].func) == "socket.inet_ntoa"
+    retu = subst_locals(up, [r for r in walk_shallow(up) if isinstance(r, ast.Return)][0].value)
+    oku = isinstance(retu, ast.Tuple) and len(retu.elts) == 2 and isinstance(retu.elts[0], ast.Call) and norm(retu.elts[0].func) == "socket.inet_ntoa"
     fmt_u = None
     sl = []
     if oku:
@@ -377,7 +378,7 @@ def r4(ctx):
     if f is None:
         raise AnchorMissing("AnnexJCodec.confirmation")
     subs = [n for n in walk_shallow(f) if isinstance(n, ast.Subscript) and norm(n.value) == "bvl_pdu_types"]
-    ok = len(subs) == 1 and norm(subs[0].slice).endswith(".bvlciFunction")
+    ok = len(subs) == 1 and norm(subst_locals(f, subs[0].slice)).endswith(".bvlciFunction")
     calls = [norm(x.func) for x in calls_in(f)]
     ok = ok and "BVLPDU" in calls and calls.count("self.response") == 1
     ctx.check("AnnexJCodec.confirmation:dispatch", ok, where(aj.module, f), "a received frame must be decoded generically, dispatched by bvlciFunction and passed up once")
